@@ -198,7 +198,7 @@ def _parse_zlist(out: str):
     return [int(x) for x in re.findall(r"-?\d+", m.group(1))]
 
 
-def eval_cases(tag: str, imports: str, ok_fn: str, case_type: str, cases: list[str], shard=400, timeout=600, workers=8):
+def eval_cases(tag: str, imports: str, ok_fn: str, case_type: str, cases: list[str], shard=400, timeout=1500, workers=8):
     """Evaluate `ok_fn` on every case inside Coq (vm_compute) and return
     (mismatch_indices, errors).  Each case is a Gallina term of type case_type."""
     d = os.path.join(COQ, "_scratch", f"{tag}_{os.getpid()}")
@@ -209,9 +209,10 @@ def eval_cases(tag: str, imports: str, ok_fn: str, case_type: str, cases: list[s
         fn = os.path.join(d, f"cases_{si}.v")
         with open(fn, "w") as f:
             f.write(imports + "\nLocal Open Scope Z_scope.\n")
-            f.write(f"Definition cases : list ({case_type}) := [\n")
-            f.write(";\n".join(sh))
-            f.write("\n].\n")
+            # one Definition per case: coqc elaborates a single huge list literal superlinearly
+            for ci, t in enumerate(sh):
+                f.write(f"Definition case_{ci} : {case_type} := {t}.\n")
+            f.write(f"Definition cases : list ({case_type}) := [" + "; ".join(f"case_{ci}" for ci in range(len(sh))) + "].\n")
             f.write(f"Eval vm_compute in (mismatches {ok_fn} cases).\n")
         files.append(fn)
 
